@@ -416,7 +416,7 @@ register("C03", streams=[Q("filter", pred="custom", apis=["find_matches"], src=F
                          Q("filter", pred="below", apis=["find_matches"], src=False, share=1)],
          observables=["calls", "results_exc"], oracles=[oracles.deep_oracle],
          rule="paths with filters in any position (root, after wildcard/rec/slice, stacked, followed by steps); predicates are decision tables over the candidate returning arbitrary truthy/falsy objects or raising, neighbour lookups, and has-family predicates; compared: results, per-candidate call log (path, data_name, data, parent), exception cause chain")
-register("C04", streams=[Q("filter", pred="has", apis=["find_matches"], src=False, share=5, untraced=0.4, guarded=0.04, resume=0.3),
+register("C04", streams=[Q("filter", pred="has", apis=["find_matches"], src=False, share=5, untraced=0.4, guarded=0.04, resume=0.3, climb_in_has=0.12),
                          Q("filter", pred="below", apis=["find_matches"], src=False, share=1, untraced=0.4)],
          observables=["fncalls", "results_exc"], oracles=[oracles.has_again_oracle],
          rule="has/has_not/has_all/has_any trees (depth<=3) over relative paths incl. wildcards, recursion, parent steps, nested filters; six operators; constants of every JSON kind; conversion chains of length 0-3 that raise on part of the data; compared: results, conversion call order, exception chain")
@@ -443,14 +443,15 @@ register("C13", streams=[Q("parent", apis=["find_matches"], src=None, share=2, u
          observables=["full_results"],
          extra=[families.MutateFamily("mset", 300, 15000, "set_match from a Match whose target path climbs above the source (outcome, returned location, object graph)"),
                 families.BuilderFamily("dag", 300, 15000, "parent steps written through the builders (path / pathd): renderings and selections"),
-                families.MutateFamily("handles", 500, 15000, "searches that climb (child, then parent) from a Match whose container was replaced through it")],
+                families.MutateFamily("handles", 500, 15000, "searches that climb (child, then parent) from a Match whose container was replaced through it"),
+                families.MutateFamily("descr", 400, 15000, "attributes of nested documents typed through getter=get_match whose paths climb above the wrapped node")],
          rule="paths with parent steps in any position, interleaved with descents, filters and recursion, from a document or a Match; locations incl. the '<-name' trail compared")
 register("C17", streams=[Q("all", apis=["find_matches", "find", "get_match"], src=None)],
          observables=["results_exc", "leaf_events", "stamps", "tie:trace"], oracles=[oracles.untraced_oracle, oracles.long_scan_oracle, oracles.event_chain_oracle, oracles.deep_oracle],
          extra=[families.MutateFamily("set", 500, 15000, "writers given a trace callable on every other call: outcome and object graph as without")],
          rule="full trace event stream (last_match, vertex index, next_match, predicate_match) compared with the machine model; unstamped events compared with the specification stream; traced vs untraced runs compared on the python side")
 register("C20", generated=["Budget"], streams=[Q("all", apis=["find_matches"], src=None, nexts="drain")],
-         observables=["attempts_bound", "results_exc", "tie:attempts"], oracles=[oracles.work_bound_oracle, oracles.rescan_oracle, oracles.live_edit_oracle, oracles.cyclic_oracle, oracles.cyclic_optional_oracle, oracles.deep_oracle],
+         observables=["attempts_bound", "results_exc", "tie:attempts"], oracles=[oracles.work_bound_oracle, oracles.rescan_oracle, oracles.live_edit_oracle, oracles.interleave_oracle, oracles.cyclic_oracle, oracles.cyclic_optional_oracle, oracles.deep_oracle],
          extra=[families.GraphFamily("cyclic", 8, 150, "per-next() trace-event count and signal on self-referential structures under the real budget")],
          rule="number of trace events of a drained search compared with the specification's attempt count and with 2 x examinations; cyclic dict/list structures with the real budget as support")
 
@@ -471,7 +472,7 @@ register("C19", extra=[families.MutateFamily("listview", 1500, 60000, "results a
          rule="histories of len / [i] / [i]= / del [i] / in / append / pop(i) / iteration / live iterators interleaved with mutations / keep_all / remove_all through the view of a list-typed attribute (identity, negating and boxing converters; empty lists; negative and out-of-range indices; predicates keeping none / some / all); compared: results and the document's own list object in the whole object graph")
 
 register("C15", streams=[Q("filter", pred="has", apis=["find_matches"], src=False, guarded=0.2)], n_quick=2500, n_thorough=60000,
-         oracles=[oracles.reuse_oracle, oracles.spelling_oracle, oracles.interrupted_use_oracle, oracles.snapshot_oracle], extra=[families.BuilderFamily("dag", 1500, 60000, "renderings and selections of expression derivation DAGs")],
+         oracles=[oracles.reuse_oracle, oracles.spelling_oracle, oracles.interrupted_use_oracle, oracles.snapshot_oracle, oracles.interleave_oracle], extra=[families.BuilderFamily("dag", 1500, 60000, "renderings and selections of expression derivation DAGs")],
          generated=["Reserved"],
          rule="derivation DAGs over path / pathd: attribute and item steps of every kind (incl. reserved attribute names, odd builder attributes, unsupported indices), siblings derived before and after their shared prefix was rendered or evaluated, equivalent spellings derived late from one prefix; compared: str()/repr() of every expression, results of evaluating it on random documents (keys with '-' and '_'), errors")
 
